@@ -145,7 +145,7 @@ def regex(ctx: Any) -> List[Ob]:
                     return pats(b.body) + pats(b.orelse)
                 return [b.id] if isinstance(b, ast.Name) else []
 
-            names = pats(_xp(f, c.func.value))
+            names = [n_ for n_ in _pattern_names(f, c.func.value) if n_.isidentifier()] or pats(_xp(f, c.func.value))
             for n in names:
                 uses.setdefault(n, set()).add(c.func.attr)
     ctx.counters['pattern_uses'] = {k: sorted(v) for k, v in uses.items()}
@@ -219,7 +219,13 @@ def const(ctx: Any) -> List[Ob]:
     whole = find(lambda x: x[0] == p0)
     obs.append(ob(R, f, f'len({p0}) limit(s): {[x[1] for x in whole]}', 'the whole name is rejected above 256 characters (and only then, by this test)', [x[1] for x in whole] == [256.0] and raises_on_true(whole[0][2])))
     svc = find(lambda x: x[1] < 63 and x[0] != p0)
-    strict_ok = bool(svc) and all('strict' in norm(x[2].ast) for x in svc)
+    def under_strict(t: Any) -> bool:
+        """the limit applies in strict mode only: `strict and len(...) > 15`, or the test sits on the true arm of `if strict:`"""
+        if 'strict' in norm(t.ast):
+            return True
+        return any(g.kind == 'test' and norm(g.ast) == 'strict' and cfg.only_through_edge(g, True, t) for g in cfg.nodes)
+
+    strict_ok = bool(svc) and all(under_strict(x[2]) for x in svc)
     obs.append(ob(R, f, f'service-label limit(s): {[(x[0], x[1]) for x in svc]}', 'in strict mode the service label (without the underscore) is rejected above 15 characters', [x[1] for x in svc] == [15.0] and strict_ok and raises_on_true(svc[0][2])))
     # instance label: byte length of the utf-8 encoding
     inst = find(lambda x: x[1] >= 63 and x[0] != p0)
@@ -275,11 +281,7 @@ def _test_kinds(ctx: Any, f: FuncInfo, t: ast.AST) -> List[str]:
                 kinds.append('edge-hyphen')  # `s.startswith('-') or s.endswith('-')`: the other spelling of `'-' in (s[0], s[-1])`
             if x.func.attr in ('search', 'match', 'fullmatch'):
                 base = x.func.value
-                names = [norm(base)]
-                if isinstance(base, ast.Name):
-                    for st in walk_local_ordered(f.node):
-                        if isinstance(st, ast.Assign) and norm(st.targets[0]) == base.id and isinstance(st.value, ast.IfExp):
-                            names = [norm(st.value.body), norm(st.value.orelse)]
+                names = _pattern_names(f, base)
                 for n in names:
                     if n == '_HAS_A_TO_Z':
                         kinds.append('has-letter')
@@ -288,6 +290,24 @@ def _test_kinds(ctx: Any, f: FuncInfo, t: ast.AST) -> List[str]:
                     elif n == '_HAS_ASCII_CONTROL_CHARS':
                         kinds.append('control-chars')
     return sorted(set(kinds))
+
+
+def _pattern_names(f: FuncInfo, base: ast.AST) -> List[str]:
+    """The pattern constants a `.search` receiver may denote: the name itself, the arms of a conditional expression, or --
+    for a local -- what each of its definitions denotes (a local chosen in the arms of an `if`)."""
+    if isinstance(base, ast.IfExp):
+        return _pattern_names(f, base.body) + _pattern_names(f, base.orelse)
+    if isinstance(base, ast.Name):
+        from .common import local_defs as _ldp
+
+        defs = [d for d in _ldp(f).get(base.id, []) if d is not None]
+        if defs and base.id not in f.params:
+            out: List[str] = []
+            for d in defs:
+                out.extend(_pattern_names(f, d))
+            return out
+        return [base.id]
+    return [norm(base)]
 
 
 @rule('C19.CASCADE', 'N', expect_min=3)
